@@ -19,7 +19,7 @@ REQUIRED = ["C07:one-entry-per-decision", "C07:stamp-latest-event", "C07:interes
             "C07:post-nlv-replayed", "C07:trade-quotes-as-logged", "C07:commission", "C07:holdings-recorded", "C07:weights-recorded",
             "C07:reward", "C07:times-strictly-increasing", "C07:nlv-series", "C07:transaction-costs-series",
             "C07:simple-returns-compound"]
-REQUIRED_CATS = ["reward:RewardPnL", "reward:RewardLogReturn", "reward:LogReturn", "reward:RewardSimpleReturn", "chain",
+REQUIRED_CATS = ["scenario:cost-ruin", "reward:RewardPnL", "reward:RewardLogReturn", "reward:LogReturn", "reward:RewardSimpleReturn", "chain",
                  "rate-path", "late-fold"]
 REQUIRED_HITS = ["Broker.rebalance"]
 TECHNIQUE = "runtime monitoring: offline replay of the recorded track record against the observer's quote log with an independent ledger"
@@ -29,7 +29,63 @@ LEVEL_NOTE = ("Trusted: ledger + interest closed form (decimal). Mutation audit:
               "context_post, stamp = grid time, entry skipped when nothing trades are caught.")
 
 
+def cost_ruin(ctx):
+    """Known finding K4: a decision that arrives solvent but whose own trading
+    costs push NLV to <= 0 is executed (trades transacted) yet never recorded:
+    Broker.rebalance raises EndOfEpisodeError from the post-trade snapshot,
+    after the trades and before the checkpoint."""
+    import numpy as np
+    from datetime import datetime, timedelta
+    from tradingenv.env import TradingEnv
+    from tradingenv.contracts import ETF
+    from tradingenv.spaces import BoxPortfolio
+    from tradingenv.transmitter import Transmitter
+    from tradingenv.events import EventNBBO
+    from tradingenv.broker.fees import BrokerFees
+    from tradingenv.broker.broker import EndOfEpisodeError
+    from vf import ep
+    rng = ctx.rng
+    cash0 = rng.choice([10.0, 50.0, 1000.0])
+    fee = cash0 * rng.uniform(0.25, 0.45)
+    n = 8
+    grid = [datetime(2020, 1, 1) + timedelta(days=k) for k in range(n)]
+    tr = Transmitter(grid)
+    tr.add_events([EventNBBO(t, ETF("A"), 10.0, 10.0) for t in grid])
+    sink = ep.Sink()
+    env = TradingEnv(action_space=BoxPortfolio([ETF("A")]), transmitter=tr, state=ep.Rec(sink), initial_cash=cash0,
+                     broker_fees=BrokerFees(fixed=fee))
+    sink.env = env
+    unrecorded = 0
+    with ep.EpMonitor(sink) as mon:
+        env.reset()
+        for k in range(n - 1):
+            tx0, n0 = mon.n_transact, len(env.broker.track_record)
+            try:
+                o, r, done, info = env.step(np.array([0.5 if k % 2 == 0 else 0.2]))
+            except EndOfEpisodeError:
+                done = True
+            executed = mon.n_transact - tx0
+            recorded = len(env.broker.track_record) - n0
+            if executed > 0 and recorded != 1:
+                exc = mon.rebalance_exc[-1] if mon.rebalance_exc else None
+                if isinstance(exc, EndOfEpisodeError) and env.broker.net_liquidation_value(False) <= 0:
+                    ctx.finding("unrecorded-decision-when-costs-exceed-nlv", step=k, transacts=executed,
+                                nlv_after=float(env.broker.net_liquidation_value(False)), fee=fee, cash0=cash0)
+                    unrecorded += 1
+                else:
+                    ctx.violation("C07:one-entry-per-decision", step=k, transacts=executed, recorded=recorded)
+            elif executed > 0:
+                ctx.check("C07:one-entry-per-decision", recorded == 1)
+            if done:
+                break
+    ctx.cat("scenario:cost-ruin")
+    ctx.nontrivial = True
+    ctx.sample = {"scenario": "cost-ruin", "cash0": cash0, "fixed_fee": fee, "unrecorded_executed_decisions": unrecorded}
+
+
 def case(ctx, i, tier):
+    if i % 40 == 39:
+        return cost_ruin(ctx)
     chain = i % 8 == 7
     discrete = i % 8 == 3
     cfg, outs = epl.ledger_episode(ctx, {"C07"}, chain=chain, discrete=discrete)
